@@ -301,7 +301,7 @@ class Gen:
             el["on_error"] = ["", {"k": "string", "parts": [
                 ["lit", "err%d" % self.nsite]]}]
         for slot in macro["slots"]:
-            if ch.coin(0.6):
+            if ch.coin(0.75):
                 self.in_fill += 1
                 f = self.element(depth + 1, fill_slot=slot)
                 self.in_fill -= 1
@@ -318,7 +318,7 @@ class Gen:
         ch = self.ch
         o = self.o
         if o["macros"] and not in_switch and fill_slot is None and \
-                self.complete_macros and ch.coin(0.18):
+                self.complete_macros and ch.coin(0.3):
             return self.use_macro_element(depth)
         el = self.new_el()
         el["fill_slot"] = fill_slot
@@ -333,7 +333,7 @@ class Gen:
             is_macro = True
         elif o["macros"] and self.macro_stack and not self.in_fill and \
                 not self.in_translate and \
-                not in_switch and fill_slot is None and ch.coin(0.3):
+                not in_switch and fill_slot is None and ch.coin(0.45):
             # (not inside a translation block: what a filled slot emits
             # there does not end up in the message - a METAL/i18n matter
             # outside the properties checked with this generator)
@@ -380,8 +380,7 @@ class Gen:
             elif t < 4:
                 el["replace"] = [ch.pick(["text", "structure", ""]),
                                  self.expr("replace")]
-        has_on_error = budget_left and ch.coin(o["on_error"]) and \
-            fill_slot is None
+        has_on_error = budget_left and ch.coin(o["on_error"])
         if budget_left and not el["talns"]:
             t = ch.choose(10)
             if t == 0:
